@@ -386,15 +386,14 @@ class Gen:
 
     def composite(self, fr):
         """a composite: header with properties, 2..4 member lines of which all but the last end in `||`.
-        Restrictions (candidate findings reported to the coordinator, see validated_only): the header's property
-        VALUES are lower case (the real parser lower-cases them), the header is spelled `# composite(` or
-        `composite(`, and the last member is a supported shape."""
+        The header is spelled `# composite(` or `composite(` (as DS9 writes it).  Header values keep their case (F105
+        class) and the last member may be an unsupported shape (F106 class)."""
         rng = self.rng
         items = [{'key': 'composite', 'eq': '=', 'd': '', 'val': '1'}]
         if rng.random() < 0.9:
             for p in self.props('local', None):
                 if p['key'].lower() not in ('composite',):
-                    items.append(dict(p, val=p['val'].lower()))
+                    items.append(p)
         if rng.random() < 0.3 and not any(p['key'].lower() == 'include' for p in items):
             items.append({'key': 'include', 'eq': '=', 'd': '', 'val': '0'})
         f = fr or 'image'
@@ -407,8 +406,8 @@ class Gen:
         for i in range(n):
             last = i == n - 1
             r = rng.random()
-            if not last and r < 0.12:
-                st = self.badshape(fr)
+            if r < 0.12:
+                st = self.badshape(fr)                   # also as the LAST member (F106 class)
             elif not last and r < 0.2 and fr is not None:
                 st = self.region(fr, unrep=True)
             else:
@@ -839,6 +838,25 @@ def scope_info(stmts):
     return out
 
 
+def composite_classes(stmts):
+    """input classes of the open composite findings, read off the structure:
+    upper_values: values of composite-header properties that are not lower case (F105);
+    bad_last: unsupported-shape lines without `||` that stand inside an open composite (F106)."""
+    upper, bad = [], []
+    open_ = False
+    for s in stmts:
+        if s['t'] == 'composite':
+            open_ = True
+            upper += [p['val'] for p in s['items'] if p['val'] != p['val'].lower()]
+        elif s['t'] == 'region' and not s.get('cont'):
+            open_ = False
+        elif s['t'] == 'badshape' and not s.get('cont'):
+            if open_:
+                bad.append(stmt_text(s).strip())
+            open_ = False
+    return {'upper_values': upper, 'bad_last': bad}
+
+
 class Check(PropertyCheck):
     id = 'C10'
     lean_targets = ['RegionsVerif.Props.C10']
@@ -879,10 +897,11 @@ class Check(PropertyCheck):
         'F101-F104 (global include=0 ignored, numeric-looking text converted, foreign delimiter characters stripped, ";" inside a '
         'delimited value splitting the line) are FIXED in /repo; their input classes are generated like any other and nothing is '
         'excused: a regression is a VIOLATION; witnesses are kept in corpus/C10/',
-        'composite restrictions of the generator (the unchanged parser deviates; reported as candidate findings, not excused): header '
-        'property values are generated in lower case (the parser lower-cases them: color=Red -> red, text={Hi} -> hi), the header is spelled '
-        '"# composite(" or "composite(" ("# Composite(" is read as a comment), the last member is a supported shape (an unsupported shape '
-        'without "||" as last member does not end the composite in the parser)',
+        'open findings F105 (composite header values lower-cased) and F106 (an unsupported last member does not end the composite): '
+        'the tie compares the real parser with the reference PLUS those deviations (Impl.Ds9Read.currentCode, theorems '
+        'composite_*_full_refuted / composite_partial); every difference to the reference proper is a violation, reported as KNOWN-FINDING '
+        'only for files in the finding\'s input class that the deviation model reproduces exactly; the header is generated as '
+        '"# composite(" / "composite(" only ("# Composite(" is read as a comment by the parser: non-finding, DS9 does not write it)',
         'outside the grammar (nothing claimed): "# text(...)" spelling, box/ellipse without angle (the real parser raises '
         'ValueError for the whole file), wrong parameter counts, text containing its own closing delimiter, valueless flags (treated as '
         'comment text), duplicate keys in one property list, tag in a global line, angles in arcsec/arcmin, exponent notation and '
@@ -998,17 +1017,24 @@ class Check(PropertyCheck):
         r = replies[0]
         if 'fail' in r:
             return {'fail': r['fail']}
-        regs = []
-        for x in r['regions']:
-            regs.append({'kind': x['kind'], 'frame': x['frame'], 'ptframes': [x['frame']] * len(x['pts']), 'pts': x['pts'], 'sizes': x['sizes'], 'angle': x['angle'],
-                         'incl': x['incl'], 'view': expected_view(x['kind'], x['props']), 'src': int(x['src']),
-                         'props': x['props']})
-        return {'regions': regs, 'nstmts': int(r['nstmts']), 'lex_ok': r.get('lex_ok'), 'lex_diff': r.get('lex_diff')}
+
+        def conv(lst):
+            return [{'kind': x['kind'], 'frame': x['frame'], 'ptframes': [x['frame']] * len(x['pts']), 'pts': x['pts'],
+                     'sizes': x['sizes'], 'angle': x['angle'], 'incl': x['incl'],
+                     'view': expected_view(x['kind'], x['props']), 'src': int(x['src']), 'props': x['props']} for x in lst]
+        # 'regions': the reference (the DS9 conventions); 'code': the model of the code under test = the reference with the
+        # OPEN deviations switched on (Impl.Ds9Read.currentCode); 'quirks': which ones are on
+        return {'regions': conv(r['regions']), 'code': conv(r['code_regions']), 'quirks': r['quirks'],
+                'nstmts': int(r['nstmts']), 'lex_ok': r.get('lex_ok'), 'lex_diff': r.get('lex_diff')}
 
     def equal(self, case, real, model):
-        """True iff the real result equals the reference (exactly, or within 1e-9 where the notation is inexact).
-        No input class is excused: F101-F104 are fixed, their former classes are ordinary inputs now and a
-        regression is reported by oracle() as a violation under the kind it had as a finding."""
+        """The tie: True iff the real result equals the MODEL OF THE CODE UNDER TEST (exactly, or within 1e-9 where the
+        notation is inexact).  That model is the reference interpreter with the open deviations F105/F106 switched on
+        (Lean: Impl.Ds9Read.currentCode); with none open it is the reference itself.
+        The PROPERTY is judged against the reference proper: every difference between the real result and
+        `Spec.Ds9.interp` is handed to oracle() as a violation.  It carries the kind of an open finding only when the file is
+        in that finding's input class, the deviation is switched on and the code model reproduces the real result exactly;
+        anything else is a `reference_mismatch`."""
         real['_diffs'] = []
         if 'fail' in model:
             real['_diffs'] = [{'kind': 'driver_failure', 'detail': model['fail']}]
@@ -1020,9 +1046,26 @@ class Check(PropertyCheck):
         if 'exc' in real:
             real['_diffs'] = [{'kind': 'exception', 'detail': real['exc'] + ' :: ' + repr(real['text'])}]
             return False
-        diffs, ok = self._compare(flat(case), real['regions'], model['regions'], real)
-        real['_diffs'] = diffs
-        return ok
+        stmts = flat(case)
+        tie_diffs, tie_ok = self._compare(stmts, real['regions'], model['code'], real)
+        ref_diffs, ref_ok = self._compare(stmts, real['regions'], model['regions'], real)
+        if not tie_ok:
+            real['_diffs'] = ref_diffs or tie_diffs
+            return False
+        if not ref_ok:
+            # the code model explains the real result; name the open finding(s) whose input class the file is in
+            cls = composite_classes(stmts)
+            out = []
+            if model['quirks'].get('F105') and cls['upper_values']:
+                out.append({'kind': 'composite_values_lowercased', 'upper_values': cls['upper_values'],
+                            'detail': f"composite header values {cls['upper_values']} are lower-cased for the members: "
+                                      f"{ref_diffs[0]['detail']}"})
+            if model['quirks'].get('F106') and cls['bad_last']:
+                out.append({'kind': 'unsupported_last_member_keeps_composite', 'bad_last': cls['bad_last'],
+                            'detail': f"the unsupported shape line(s) {cls['bad_last']} end a composite but its properties stay in "
+                                      f"force: {ref_diffs[0]['detail']}"})
+            real['_diffs'] = out or ref_diffs
+        return True
 
     def _compare(self, stmts, A, B, real):
         diffs = []
@@ -1167,6 +1210,10 @@ class Check(PropertyCheck):
             return edge_delim(v.get('value') or '')
         if k == 'semicolon_in_value_splits_line':
             return bool(v.get('keys')) and all(key != 'text' for key in v['keys'])
+        if k == 'composite_values_lowercased':
+            return bool(v.get('upper_values')) and all(x != x.lower() for x in v['upper_values'])
+        if k == 'unsupported_last_member_keeps_composite':
+            return bool(v.get('bad_last'))
         return False
 
     def nontrivial(self, case, real):
